@@ -302,7 +302,7 @@ theorem reads_simple (tt : TT) (data F : List Char)
     · exact Reads.tok [' '] F .whitespace (by simp) (fun n _ => next_ws F n h.2)
     · simp [isPlain, Tok.tt] at h
   simp only [beq_eq_false_iff_ne.mpr hw, Bool.false_eq_true, if_false, Bool.and_eq_true] at hok
-  obtain ⟨⟨hpl, hl⟩, hpu⟩ := hok
+  obtain ⟨⟨⟨hpl, hl⟩, hpu⟩, _⟩ := hok
   obtain ⟨hp, _⟩ := lexOk_iff hl
   rcases hfol with h | h | h
   · -- self-delimited punctuation or delimiter
@@ -411,7 +411,7 @@ theorem tokOk_head (t : Tok) (h : tokOk t = true) :
       subst h
       exact ⟨by simp, fun hh => absurd rfl hh⟩
     simp only [beq_eq_false_iff_ne.mpr hw, Bool.false_eq_true, if_false, Bool.and_eq_true] at h
-    exact ⟨(lexOk_iff h.1.2).1, fun _ => head_not_ws _ _ h.1.2 hw⟩
+    exact ⟨(lexOk_iff h.1.1.2).1, fun _ => head_not_ws _ _ h.1.1.2 hw⟩
 
 /-- every admissible token is self-delimited, white space or plain -/
 theorem tokOk_class (t : Tok) (h : tokOk t = true) :
@@ -432,7 +432,7 @@ theorem tokOk_class (t : Tok) (h : tokOk t = true) :
     by_cases hw : tt = .whitespace
     · right; left; exact hw
     simp only [beq_eq_false_iff_ne.mpr hw, Bool.false_eq_true, if_false, Bool.and_eq_true] at h
-    right; right; exact h.1.1
+    right; right; exact h.1.1.1
 
 theorem writeArg_head (t : Tok) (X : List Char) (h : t.data ≠ []) :
     (writeArg t ++ X).head? = t.data.head? ∧ (writeArg t ++ X).headD 'x' = t.data.headD 'x' := by
@@ -456,6 +456,47 @@ theorem folOk_last (t : Tok) (F : List Char) (h : tokOk t = true) : folOk t (')'
   · exact Or.inr (Or.inl ⟨hc, by simp only [List.headD_cons]; decide⟩)
   · exact Or.inr (Or.inr ⟨hc, by simp [stopStr, U, isName, isNameStart, isDigit, isNl]⟩)
 
+theorem endsInHexEscape_eq (b : List Char) : endsInHexEscape b = Verif.Spec.CssValue.endsHexEsc b := rfl
+
+/-- an admissible token does not end in a hexadecimal escape that the writer would have to terminate -/
+theorem tokOk_noesc (t : Tok) (h : tokOk t = true) :
+    gluesArgs t.tt t.data .whitespace [' '] = false ∧ (escTT t.tt && endsInHexEscape t.data) = false := by
+  match t, h with
+  | .mk tt data args, h =>
+    simp only [Tok.tt, Tok.data]
+    by_cases hp : (tt == .ident || tt == .hash || tt == .number || tt == .dimension || tt == .atKeyword ||
+        tt == .customPropertyName) = true
+    · have hne : (tt == .function) = false ∧ (tt == .url) = false ∧ (tt == .string) = false ∧
+          (tt == .whitespace) = false := by
+        simp only [Bool.or_eq_true, beq_iff_eq] at hp
+        rcases hp with ((((h1 | h1) | h1) | h1) | h1) | h1 <;> subst h1 <;> decide
+      simp only [tokOk, hne.1, hne.2.1, hne.2.2.1, hne.2.2.2, Bool.false_eq_true, if_false, Bool.and_eq_true,
+        Bool.not_eq_true'] at h
+      have he : endsInHexEscape data = false := by rw [endsInHexEscape_eq]; exact h.2
+      constructor
+      · simp [gluesArgs, he]
+      · simp [he]
+    · have hp' : (tt == .ident || tt == .hash || tt == .number || tt == .dimension || tt == .atKeyword ||
+        tt == .customPropertyName) = false := by simpa using hp
+      constructor
+      · simp only [gluesArgs, hp', Bool.not_false, if_true]
+        split <;> rfl
+      · simp only [Bool.or_eq_false_iff] at hp'
+        simp [escTT, hp'.1.1.1.1.1, hp'.1.1.1.1.2, hp'.1.1.2]
+
+/-- the Spec-side description of a gluing pair is the writer's own test -/
+theorem gluePair_glues (t u : Tok) (h : gluePair t u = true) :
+    gluesArgs t.tt t.data u.tt u.data = true ∧ t.tt ≠ .function := by
+  simp only [gluePair, Bool.and_eq_true, Bool.not_eq_true', bne_iff_ne, ne_eq] at h
+  obtain ⟨⟨⟨⟨h1, h2⟩, h3⟩, h4⟩, h5⟩ := h
+  have hw : (u.tt == TT.whitespace) = false := by simpa using h4
+  have hnb : ∀ c : Char, isNameStartByte c = nameStartByte c := by
+    intro c; simp [isNameStartByte, nameStartByte, isLetter, Bool.or_assoc]
+  refine ⟨?_, ?_⟩
+  · simp only [gluesArgs, h1, h2, Bool.or_self, Bool.false_eq_true, if_false, h3, Bool.not_true, hw, hnb]
+    exact h5
+  · intro hf; rw [hf] at h3; simp at h3
+
 theorem folOk_next (t u : Tok) (r : List Tok) (X : List Char) (ht : tokOk t = true) (hu : tokOk u = true)
     (hs : sepOk t u = true) :
     folOk t (writeFunction (some (t.tt, t.data)) (u :: r) ++ X) := by
@@ -464,8 +505,8 @@ theorem folOk_next (t u : Tok) (r : List Tok) (X : List Char) (ht : tokOk t = tr
   | .mk utt udata uargs, hune, huws, hs, hu =>
   simp only [Tok.data, Tok.tt] at hune huws
   simp only [writeFunction]
-  by_cases hg : (t.tt != .function && opensComment t.data udata) = true
-  · -- the writer separates `/` and `*` with a space
+  by_cases hg : (t.tt != .function && (opensComment t.data udata || gluesArgs t.tt t.data utt udata)) = true
+  · -- the writer separates the two with a space
     simp only [hg, if_true, List.append_assoc, List.cons_append, List.nil_append]
     rcases tokOk_class t ht with hc | hc | hc
     · exact Or.inl ⟨hc, fun _ _ => by simp⟩
@@ -477,22 +518,24 @@ theorem folOk_next (t u : Tok) (r : List Tok) (X : List Char) (ht : tokOk t = tr
         simp only [tokOk] at ht
         have : tdata = [' '] := by simpa using ht
         subst this
-        simp [opensComment, Tok.data] at hg
+        simp [opensComment, gluesArgs, Tok.data, Tok.tt] at hg
     · exact Or.inr (Or.inr ⟨hc, by simp [stopStr, U, isName, isNameStart, isDigit, isNl]⟩)
-  · have hg' : (t.tt != .function && opensComment t.data udata) = false := by simpa using hg
+  · have hg' : (t.tt != .function && (opensComment t.data udata || gluesArgs t.tt t.data utt udata)) = false := by
+      simpa using hg
     simp only [hg', Bool.false_eq_true, if_false, List.nil_append, List.append_assoc]
     have hh := writeArg_head (.mk utt udata uargs) (writeFunction (some (utt, udata)) r ++ X) hune
     simp only [Tok.data] at hh
     simp only [sepOk, Bool.or_eq_true, Bool.and_eq_true, bne_iff_ne, ne_eq, beq_iff_eq] at hs
-    rcases hs with (hs | hs) | hs
+    rcases hs with ((hs | hs) | hs) | hs
     · refine Or.inl ⟨hs, ?_⟩
       intro hd hdd
       rw [hh.1]
       intro hstar
-      apply hg
-      simp only [Bool.and_eq_true, bne_iff_ne, ne_eq]
-      refine ⟨by rw [hd]; decide, ?_⟩
-      simp [opensComment, hdd, hstar]
+      have : (t.tt != .function && (opensComment t.data udata || gluesArgs t.tt t.data utt udata)) = true := by
+        simp only [Bool.and_eq_true, bne_iff_ne, ne_eq, Bool.or_eq_true]
+        refine ⟨by rw [hd]; decide, Or.inl ?_⟩
+        simp [opensComment, hdd, hstar]
+      exact hg this
     · refine Or.inr (Or.inl ⟨hs.1, ?_⟩)
       rw [hh.2]
       exact huws hs.2
@@ -502,6 +545,14 @@ theorem folOk_next (t u : Tok) (r : List Tok) (X : List Char) (ht : tokOk t = tr
       | cons c d =>
         simp only [Tok.data, stopHead, Bool.and_eq_true, bne_iff_ne, ne_eq] at hs
         simp [writeArg, stopStr, hs.2.1, hs.2.2]
+    · -- a gluing pair: the writer's test fires, contradiction
+      exfalso
+      obtain ⟨h1, h2⟩ := gluePair_glues t (.mk utt udata uargs) hs
+      simp only [Tok.tt, Tok.data] at h1
+      have : (t.tt != .function && (opensComment t.data udata || gluesArgs t.tt t.data utt udata)) = true := by
+        simp only [Bool.and_eq_true, bne_iff_ne, ne_eq, Bool.or_eq_true]
+        exact ⟨h2, Or.inr h1⟩
+      exact hg this
 
 theorem argsOk_cons (t : Tok) (r : List Tok) (h : argsOk (t :: r) = true) :
     tokOk t = true ∧ argsOk r = true ∧ (∀ u r', r = u :: r' → sepOk t u = true ∧ tokOk u = true) := by
@@ -532,7 +583,7 @@ theorem reads_arg : ∀ (t : Tok) (F : List Char), tokOk t = true → folOk t F 
       have r1 : Reads data ((writeFunction none args ++ [')']) ++ F) (significant [(.function, data)]) :=
         Reads.tok data _ .function hp (fun n hn => next_function data _ hl hh n hn)
       have r2 : Reads (writeFunction none args) ([')'] ++ F) (significant (flatArgs args)) :=
-        reads_args args none F ha
+        reads_args args none F ha (by intro _ _ hh; simp at hh)
       have r3 : Reads [')'] F (significant [(.rightParen, [')'])]) :=
         Reads.tok [')'] F .rightParen (by simp) (fun n _ => next_rparen F n)
       have r23 := Reads.append r2 r3
@@ -551,13 +602,14 @@ theorem reads_arg : ∀ (t : Tok) (F : List Char), tokOk t = true → folOk t F 
         exact reads_simple tt data F hf hu hok hfol
 /-- the arguments of a function, written back to back, in front of the closing parenthesis -/
 theorem reads_args : ∀ (args : List Tok) (prev : Option (TT × List Char)) (F : List Char), argsOk args = true →
+    (∀ ptt pdata, prev = some (ptt, pdata) → gluesArgs ptt pdata .whitespace [' '] = false) →
     Reads (writeFunction prev args) ([')'] ++ F) (significant (flatArgs args))
-  | [], prev, F, _ => by
+  | [], prev, F, _, _ => by
     simp only [writeFunction, flatArgs]
     exact Reads.nil _
-  | .mk tt data args :: r, prev, F, h => by
+  | .mk tt data args :: r, prev, F, h, hprev => by
     obtain ⟨ht, hr, hnext⟩ := argsOk_cons _ _ h
-    obtain ⟨hne, _⟩ := tokOk_head _ ht
+    obtain ⟨hne, hhw⟩ := tokOk_head _ ht
     simp only [Tok.data] at hne
     simp only [writeFunction, flatArgs]
     -- what follows the written form of this argument
@@ -568,10 +620,16 @@ theorem reads_args : ∀ (args : List Tok) (prev : Option (TT × List Char)) (F 
         obtain ⟨hs, hu⟩ := hnext u r' rfl
         exact folOk_next (.mk tt data args) u r' _ ht hu hs
     have r2 := reads_arg (.mk tt data args) _ ht hfol
-    have r3 := reads_args r (some (tt, data)) F hr
+    have r3 := reads_args r (some (tt, data)) F hr (by
+      intro ptt pdata hh
+      have h1 := (Option.some.inj hh)
+      have e1 : ptt = tt := (congrArg Prod.fst h1).symm
+      have e2 : pdata = data := (congrArg Prod.snd h1).symm
+      subst e1; subst e2
+      exact (tokOk_noesc _ ht).1)
     have r23 := Reads.append r2 r3
-    -- the separating space in front of `*` behind `/`
-    have hsp : ∀ g : List Char, (g = [' '] ∧ data.head? = some '*') ∨ g = [] →
+    -- the separating space (in front of `*` behind `/`, or between two arguments that would glue)
+    have hsp : ∀ g : List Char, (g = [' '] ∧ isWs (data.headD 'x') = false) ∨ g = [] →
         Reads (g ++ (writeArg (.mk tt data args) ++ writeFunction (some (tt, data)) r)) ([')'] ++ F)
           (significant (flatTok (.mk tt data args)) ++ significant (flatArgs r)) := by
       intro g hg
@@ -585,11 +643,7 @@ theorem reads_args : ∀ (args : List Tok) (prev : Option (TT × List Char)) (F 
           have := (writeArg_head (.mk tt data args) (writeFunction (some (tt, data)) r ++ ([')'] ++ F)) hne).2
           simp only [List.append_assoc, Tok.data, List.append_eq, List.nil_append] at this ⊢
           rw [this]
-          cases data with
-          | nil => exact absurd rfl hne
-          | cons c d =>
-            have : c = '*' := by simpa using hstar
-            subst this; simp only [List.headD_cons]; decide
+          exact hstar
         have := Reads.append r1 r23
         simpa [significant] using this
       · subst hg; simpa using r23
@@ -599,13 +653,22 @@ theorem reads_args : ∀ (args : List Tok) (prev : Option (TT × List Char)) (F 
     | some pr =>
       obtain ⟨ptt, pdata⟩ := pr
       simp only []
-      by_cases hg : (ptt != .function && opensComment pdata data) = true
+      by_cases hg : (ptt != .function && (opensComment pdata data || gluesArgs ptt pdata tt data)) = true
       · simp only [hg, if_true]
-        have hstar : data.head? = some '*' := by
-          simp only [Bool.and_eq_true, opensComment, beq_iff_eq] at hg
-          exact hg.2.2
+        have hstar : isWs (data.headD 'x') = false := by
+          by_cases hw : tt = .whitespace
+          · exfalso
+            subst hw
+            have hd : data = [' '] := by simpa [tokOk] using ht
+            subst hd
+            simp only [Bool.and_eq_true, Bool.or_eq_true] at hg
+            rcases hg.2 with h1 | h1
+            · simp [opensComment] at h1
+            · rw [hprev ptt pdata rfl] at h1; exact absurd h1 (by decide)
+          · exact hhw hw
         simpa [List.append_assoc] using hsp [' '] (Or.inl ⟨rfl, hstar⟩)
-      · have hg' : (ptt != .function && opensComment pdata data) = false := by simpa using hg
+      · have hg' : (ptt != .function && (opensComment pdata data || gluesArgs ptt pdata tt data)) = false := by
+          simpa using hg
         simp only [hg', Bool.false_eq_true, if_false]
         simpa [List.append_assoc] using hsp [] (Or.inr rfl)
 end
@@ -627,7 +690,7 @@ theorem isSlash_data (t : Tok) (ht : tokOk t = true) (hs : isSlash t = true) : t
     obtain ⟨h1, h2⟩ := hs
     subst h1
     have hl : data.length = 1 := by
-      simp [tokOk, punctOk] at ht; exact ht.2
+      simp [tokOk, punctOk] at ht; exact ht.1.2
     match data, hl, h2 with
     | [c], _, h2 => simp at h2; subst h2; exact ⟨rfl, rfl⟩
 
@@ -637,7 +700,7 @@ theorem comma_data (t : Tok) (ht : tokOk t = true) (hs : t.tt = .comma) : t.data
     simp only [Tok.tt] at hs
     subst hs
     simp [tokOk, punctOk] at ht
-    exact ht.2
+    exact ht.1.2
 
 theorem space_stop (X : List Char) : stopStr (' ' :: X) = true := by
   simp [stopStr, U, isName, isNameStart, isDigit, isNl]
@@ -691,7 +754,7 @@ theorem folOk_top (t : Tok) (r : List Tok) (k : List Char) (ht : tokOk t = true)
         simp [sepAfter, this] at hsa'
       simp only [hsa', Bool.not_false, Bool.true_and]
       by_cases hcs : (u.tt != .comma && !isSlash u) = true
-      · simp only [hcs, if_true, List.cons_append, List.nil_append]
+      · simp only [hcs, if_true, List.cons_append]
         rcases hcl with hc | hc
         · exact Or.inl ⟨hc, fun _ _ => by simp⟩
         · exact Or.inr (Or.inr ⟨hc, space_stop _⟩)
@@ -718,13 +781,13 @@ theorem folOk_top (t : Tok) (r : List Tok) (k : List Char) (ht : tokOk t = true)
 
 /-- the values of a declaration as `writeVals` separates them -/
 theorem reads_vals : ∀ (vs : List Tok) (prev : Option Tok) (prevSep : Bool) (k : List Char),
-    valsOk vs = true → stopStr k = true →
+    valsOk vs = true → stopStr k = true → (∀ p, prev = some p → (escTT p.tt && endsInHexEscape p.data) = false) →
     Reads (writeVals prev prevSep vs) k (significant (flatArgs vs)) := by
   intro vs
   induction vs with
-  | nil => intro _ _ k _ _; simp only [writeVals, flatArgs]; exact Reads.nil k
+  | nil => intro _ _ k _ _ _; simp only [writeVals, flatArgs]; exact Reads.nil k
   | cons t r ih =>
-    intro prev prevSep k hv hk
+    intro prev prevSep k hv hk hprev
     have hv' := hv
     simp only [valsOk, List.all_cons, Bool.and_eq_true, bne_iff_ne, ne_eq] at hv'
     obtain ⟨⟨ht, hw⟩, hr⟩ := hv'
@@ -732,7 +795,8 @@ theorem reads_vals : ∀ (vs : List Tok) (prev : Option Tok) (prevSep : Bool) (k
     obtain ⟨hne, hhw⟩ := tokOk_head t ht
     have hfol := folOk_top t r k ht hw hr' hk
     have r2 := reads_arg t _ ht hfol
-    have r3 := ih (some t) (sepAfter t) k hr' hk
+    have r3 := ih (some t) (sepAfter t) k hr' hk (by
+      intro p hp; have := Option.some.inj hp; subst this; exact (tokOk_noesc t ht).2)
     have r23 := Reads.append r2 r3
     simp only [writeVals, flatArgs, significant_append]
     -- the separator is one space or nothing
@@ -757,7 +821,10 @@ theorem reads_vals : ∀ (vs : List Tok) (prev : Option Tok) (prevSep : Bool) (k
     rw [List.append_assoc]
     apply hsp
     by_cases c : (!prevSep && t.tt != .comma && !isSlash t) = true
-    · simp [c]
+    · simp only [c, if_true]
+      cases prev with
+      | none => exact Or.inl rfl
+      | some p => simp [hprev p rfl]
     · simp only [c, Bool.false_eq_true, if_false]
       cases prev with
       | none => exact Or.inr rfl
@@ -811,12 +878,12 @@ theorem css_writer_retokenises (vs : List Tok) (important : Bool) (k : List Char
   cases important with
   | false =>
     simp only [importantToks, Bool.false_eq_true, if_false, List.append_nil]
-    exact reads_tokenise _ k _ (reads_vals vs none true k hv hk)
+    exact reads_tokenise _ k _ (reads_vals vs none true k hv hk (by intro _ hh; simp at hh))
   | true =>
     simp only [importantToks, if_true]
     have hk' : stopStr (S "!important" ++ k) = true := by
       simp [S, stopStr, U, isName, isNameStart, isDigit, isNl]
-    have r1 := reads_vals vs none true (S "!important" ++ k) hv hk'
+    have r1 := reads_vals vs none true (S "!important" ++ k) hv hk' (by intro _ hh; simp at hh)
     have r2 := reads_important k hk
     exact reads_tokenise _ k _ (Reads.append r1 r2)
 
@@ -833,18 +900,34 @@ def css_writer_retokenises_full : Prop :=
       significant (tokenise (writeDeclaration vs important ++ k)) =
         significant (flatArgs vs) ++ importantToks important ++ significant (tokAux n' k [])
 
-/-- witness: the tokens `f(` `red` `10%` `)` — what `minifyTokens` makes of `f(rgb(255,0,0)10%)` — are written
-    `f(red10%)`, which reads `f(` `red10` `%` `)` (known finding K-C09-CSS-1, reproduced on the real code) -/
+/-- witness: a delimiter `-` directly in front of the identifier `red` inside a function — a pair the writer's test
+    (`gluesArgs`) does not look at — is written `f(-red)`, one identifier.  (No input produces these tokens: the lexer
+    reads `-rgb(` as a function name; the pairs that rewriting does produce are separated since a933f35.) -/
 theorem css_writer_retokenises_counterexample : ¬ css_writer_retokenises_full := by
   intro h
-  obtain ⟨n', _, e⟩ := h [.mk .function (S "f(") [.mk .ident (S "red") [], .mk .percentage (S "10%") []]] false [';']
+  obtain ⟨n', _, e⟩ := h [.mk .function (S "f(") [.mk .delim (S "-") [], .mk .ident (S "red") []]] false [';']
     (by decide) (by decide)
-  have e2 := congrArg (List.take 3) e
-  have l : List.take 3 (significant (tokenise (writeDeclaration
-      [.mk .function (S "f(") [.mk .ident (S "red") [], .mk .percentage (S "10%") []]] false ++ [';']))) =
-      [(.function, S "f("), (.ident, S "red10"), (.delim, S "%")] := by decide
+  have e2 := congrArg (List.take 2) e
+  have l : List.take 2 (significant (tokenise (writeDeclaration
+      [.mk .function (S "f(") [.mk .delim (S "-") [], .mk .ident (S "red") []]] false ++ [';']))) =
+      [(.function, S "f("), (.ident, S "-red")] := by decide
   rw [l] at e2
   simp [flatArgs, flatTok, significant, importantToks, S] at e2
+
+/-- regression of K-C09-CSS-7 (fixed by a933f35): behind a name that ends in a hexadecimal escape without its
+    terminating white space the writer puts two spaces, and the two identifiers stay two (such lexemes are outside
+    `valsOk`, which asks for the lexer's lexeme including the terminator) -/
+example : writeDeclaration [.mk .ident (S "a\\9") [], .mk .ident (S "b") []] false = S "a\\9  b" ∧
+    significant (tokenise (S "a\\9  b;")) = [(.ident, S "a\\9 "), (.ident, S "b"), (.semicolon, S ";")] := by decide
+
+/-- regression of K-C09-CSS-1 and K-C09-CSS-2 (fixed by a933f35): the former counterexamples are admissible now and written with
+    the separating space -/
+example : valsOk [.mk .function (S "f(") [.mk .ident (S "red") [], .mk .percentage (S "10%") []]] = true ∧
+    writeDeclaration [.mk .function (S "f(") [.mk .ident (S "red") [], .mk .percentage (S "10%") []]] false =
+      S "f(red 10%)" ∧
+    valsOk [.mk .function (S "f(") [.mk .number (S "1") [], .mk .number (S ".5") []]] = true ∧
+    writeDeclaration [.mk .function (S "f(") [.mk .number (S "1") [], .mk .number (S ".5") []]] false =
+      S "f(1 .5)" := by decide
 
 open Verif.Model.C09Css in
 /-- **css_declaration_retokenises** — the same for the whole declaration minifier of the model
@@ -921,8 +1004,8 @@ theorem flat_tok_fine : ∀ (t : Tok), tokOk t = true → ∀ x ∈ flatTok t, t
           have : data = [' '] := by simpa using hok
           subst this; exact Or.inl rfl
         simp only [beq_eq_false_iff_ne.mpr hw, Bool.false_eq_true, if_false, Bool.and_eq_true] at hok
-        have hp := plain_of_isPlain hok.1.1
-        exact Or.inr (Or.inr ⟨hok.1.2, hp.2.2.2.1, hp.2.2.2.2.2.1⟩)
+        have hp := plain_of_isPlain hok.1.1.1
+        exact Or.inr (Or.inr ⟨hok.1.1.2, hp.2.2.2.1, hp.2.2.2.2.2.1⟩)
 theorem flat_args_fine : ∀ (args : List Tok), argsOk args = true → ∀ x ∈ flatArgs args, tokFine x
   | [], _, x, hx => by simp [flatArgs] at hx
   | t :: r, h, x, hx => by
@@ -1042,18 +1125,18 @@ example : valsOk [.mk .function (S "f(") [.mk .leftParen (S "(") [], .mk .ident 
 /-! ## strings and urls -/
 
 /-- full statement: `removeMarkupNewlines` (the string branch of `minifyTokens`) turns every closed string lexeme
-    into a closed string lexeme with the same value.  False, see the counterexample. -/
+    into a closed string lexeme with the same value.  False before a933f35 (`"\31\<LF>2"`); since then no counterexample
+    is known (harness: string values of the real output, every run); proved only under the guard below. -/
 def css_string_closed_full : Prop :=
   ∀ data : List Char, lexOk .string data = true →
     lexOk .string (removeMarkupNewlines data) = true ∧ stringValue (removeMarkupNewlines data) = stringValue data
 
-/-- `"\31\<LF>2"` (the value `12`) becomes `"\312"` (U+0312): a hex escape that ends where the removed `\`+newline
-    began runs on into the next line (known finding K-C09-CSS-11, reproduced on the real code) -/
-theorem css_string_closed_counterexample : ¬ css_string_closed_full := by
-  intro h
-  have := (h (S "\"\\31\\\n2\"") (by decide)).2
-  revert this
-  decide
+/-- regression of K-C09-CSS-11 (fixed by a933f35): `"\31\<LF>2"` keeps its value `12` (`"\31 2"`), `"x\31\<LF> y"` keeps
+    `x1 y` -/
+example : removeMarkupNewlines (S "\"\\31\\\n2\"") = S "\"\\31 2\"" ∧
+    stringValue (removeMarkupNewlines (S "\"\\31\\\n2\"")) = stringValue (S "\"\\31\\\n2\"") ∧
+    lexOk .string (removeMarkupNewlines (S "\"x\\31\\\n y\"")) = true ∧
+    stringValue (removeMarkupNewlines (S "\"x\\31\\\n y\"")) = stringValue (S "\"x\\31\\\n y\"") := by decide
 
 /-- the guard: no `\`+newline anywhere (then nothing is removed) -/
 theorem css_string_closed_partial (data : List Char) (hl : lexOk .string data = true)
@@ -1206,7 +1289,7 @@ theorem reads_raw_tok (t : Tok) (F : List Char) (hok : rawTokOk t = true) (hfol 
         exact reads_simple tt data F hf hu hok hfol'
 
 theorem rawOk_cons (t : Tok) (r : List Tok) (h : rawOk (t :: r) = true) :
-    rawTokOk t = true ∧ rawOk r = true ∧ (∀ u r', r = u :: r' → sepOk t u = true ∧ rawTokOk u = true) := by
+    rawTokOk t = true ∧ rawOk r = true ∧ (∀ u r', r = u :: r' → sepSafe t u = true ∧ rawTokOk u = true) := by
   cases r with
   | nil => exact ⟨by simpa [rawOk] using h, by simp [rawOk], fun _ _ hh => by simp at hh⟩
   | cons u r' =>
@@ -1235,10 +1318,17 @@ theorem rawTokOk_class (t : Tok) (h : rawTokOk t = true) :
     simp only [Tok.data]
     simpa [tokOk] using h
 
+theorem rawTokOk_noesc (t : Tok) (h : rawTokOk t = true) : (escTT t.tt && endsInHexEscape t.data) = false := by
+  have := (tokOk_noesc (.mk t.tt t.data []) h).2
+  simpa [Tok.tt, Tok.data] using this
+
+theorem and3_false (b x y : Bool) (h : (x && y) = false) : (b && x && y) = false := by
+  cases b <;> cases x <;> cases y <;> simp_all
+
 /-- what `writeRaw` puts behind a component may follow it -/
 theorem folOk_raw (t : Tok) (r : List Tok) (k : List Char) (h : rawOk (t :: r) = true)
     (hk : stopStr k = true) (hkw : isWs (k.headD 'x') = false) :
-    folOk t (writeRaw (some t.data) r ++ k) := by
+    folOk t (writeRaw (some t) r ++ k) := by
   obtain ⟨ht, _, hnext⟩ := rawOk_cons t r h
   obtain ⟨hcl, _, _, hwd⟩ := rawTokOk_class t ht
   cases r with
@@ -1251,7 +1341,7 @@ theorem folOk_raw (t : Tok) (r : List Tok) (k : List Char) (h : rawOk (t :: r) =
   | cons u r' =>
     obtain ⟨hs, hu⟩ := hnext u r' rfl
     obtain ⟨_, hune, huws, _⟩ := rawTokOk_class u hu
-    simp only [writeRaw]
+    simp only [writeRaw, and3_false _ _ _ (rawTokOk_noesc t ht), Bool.false_eq_true, if_false]
     by_cases hg : opensComment t.data u.data = true
     · simp only [hg, if_true, List.append_assoc, List.cons_append, List.nil_append]
       rcases hcl with hc | hc | hc
@@ -1261,15 +1351,15 @@ theorem folOk_raw (t : Tok) (r : List Tok) (k : List Char) (h : rawOk (t :: r) =
         simp [opensComment] at hg
       · exact Or.inr (Or.inr ⟨hc, space_stop _⟩)
     · simp only [hg, Bool.false_eq_true, if_false, List.nil_append, List.append_assoc]
-      have hh1 : (u.data ++ (writeRaw (some u.data) r' ++ k)).head? = u.data.head? := by
+      have hh1 : (u.data ++ (writeRaw (some u) r' ++ k)).head? = u.data.head? := by
         cases hd : u.data with
         | nil => exact absurd hd hune
         | cons c d => rfl
-      have hh2 : (u.data ++ (writeRaw (some u.data) r' ++ k)).headD 'x' = u.data.headD 'x' := by
+      have hh2 : (u.data ++ (writeRaw (some u) r' ++ k)).headD 'x' = u.data.headD 'x' := by
         cases hd : u.data with
         | nil => exact absurd hd hune
         | cons c d => rfl
-      simp only [sepOk, Bool.or_eq_true, Bool.and_eq_true, bne_iff_ne, ne_eq, beq_iff_eq] at hs
+      simp only [sepSafe, Bool.or_eq_true, Bool.and_eq_true, bne_iff_ne, ne_eq, beq_iff_eq] at hs
       rcases hs with (hs | hs) | hs
       · refine Or.inl ⟨hs, ?_⟩
         intro _ hdd
@@ -1282,28 +1372,30 @@ theorem folOk_raw (t : Tok) (r : List Tok) (k : List Char) (h : rawOk (t :: r) =
         exact huws hs.2
       · exact Or.inr (Or.inr ⟨hs.1, stopStr_of_head _ _ hs.2⟩)
 
-theorem reads_raw : ∀ (comps : List Tok) (prev : Option (List Char)) (k : List Char),
+theorem reads_raw : ∀ (comps : List Tok) (prev : Option Tok) (k : List Char),
     rawOk comps = true → stopStr k = true → isWs (k.headD 'x') = false →
+    (∀ p, prev = some p → (escTT p.tt && endsInHexEscape p.data) = false) →
     Reads (writeRaw prev comps) k (significant (comps.flatMap rawFlat)) := by
   intro comps
   induction comps with
-  | nil => intro _ k _ _ _; simp only [writeRaw, List.flatMap_nil]; exact Reads.nil k
+  | nil => intro _ k _ _ _ _; simp only [writeRaw, List.flatMap_nil]; exact Reads.nil k
   | cons t r ih =>
-    intro prev k h hk hkw
+    intro prev k h hk hkw hprev
     obtain ⟨ht, hr, _⟩ := rawOk_cons t r h
     obtain ⟨_, hne, _, _⟩ := rawTokOk_class t ht
     have hfol := folOk_raw t r k h hk hkw
     have r2 := reads_raw_tok t _ ht hfol
-    have r3 := ih (some t.data) k hr hk hkw
+    have r3 := ih (some t) k hr hk hkw (by
+      intro p hp; have := Option.some.inj hp; subst this; exact rawTokOk_noesc t ht)
     have r23 := Reads.append r2 r3
     simp only [writeRaw, List.flatMap_cons, significant_append]
     have hsp : ∀ g : List Char, (g = [' '] ∧ t.data.head? = some '*') ∨ g = [] →
-        Reads (g ++ (t.data ++ writeRaw (some t.data) r)) k
+        Reads (g ++ (t.data ++ writeRaw (some t) r)) k
           (significant (rawFlat t) ++ significant (r.flatMap rawFlat)) := by
       intro g hg
       rcases hg with ⟨hg, hstar⟩ | hg
       · subst hg
-        have r1 : Reads [' '] ((t.data ++ writeRaw (some t.data) r) ++ k) (significant [(.whitespace, [' '])]) := by
+        have r1 : Reads [' '] ((t.data ++ writeRaw (some t) r) ++ k) (significant [(.whitespace, [' '])]) := by
           apply Reads.tok [' '] _ .whitespace (by simp)
           intro n _
           apply next_ws
@@ -1323,8 +1415,8 @@ theorem reads_raw : ∀ (comps : List Tok) (prev : Option (List Char)) (k : List
     cases prev with
     | none => exact Or.inr rfl
     | some p =>
-      simp only []
-      by_cases c2 : opensComment p t.data = true
+      simp only [and3_false _ _ _ (hprev p rfl), Bool.false_eq_true, if_false]
+      by_cases c2 : opensComment p.data t.data = true
       · left
         simp only [c2, if_true, true_and]
         simp only [opensComment, Bool.and_eq_true, beq_iff_eq] at c2
@@ -1345,13 +1437,13 @@ theorem css_raw_retokenises (comps : List Tok) (important : Bool) (k : List Char
   cases important with
   | false =>
     simp only [importantToks, Bool.false_eq_true, if_false, List.append_nil]
-    exact reads_tokenise _ k _ (reads_raw comps none k h hk hkw)
+    exact reads_tokenise _ k _ (reads_raw comps none k h hk hkw (by intro _ hh; simp at hh))
   | true =>
     simp only [importantToks, if_true]
     have hk' : stopStr (S "!important" ++ k) = true := by
       simp [S, stopStr, U, isName, isNameStart, isDigit, isNl]
     have hkw' : isWs ((S "!important" ++ k).headD 'x') = false := by simp [S, isWs]
-    have r1 := reads_raw comps none (S "!important" ++ k) h hk' hkw'
+    have r1 := reads_raw comps none (S "!important" ++ k) h hk' hkw' (by intro _ hh; simp at hh)
     have r2 := reads_important k hk
     exact reads_tokenise _ k _ (Reads.append r1 r2)
 
